@@ -65,12 +65,12 @@ Definition fx_scope_only (scope : bool) : U.fixes := U.mk_fixes scope true true 
 Definition u_defs (ptr : Det.meth -> bool) (p : Det.pkg) : list U.obj :=
   map u_of_det (Det.pk_defs p) ++ map (u_of_meth ptr) (Det.pk_meths p).
 
-(* package.go:146-157 (repair 50ddee1) on Universe's method lists: sort.Slice by (file name, offset).
-   [pos] is that key as one number (Determinism's m_pos; the C13 harness numbers the objects of a package in
-   exactly this order, so there pos = o_id).  Universe.v models lines 116-144 only; MethodsOf of the current
-   code is [sorted_methods_of]. *)
+(* MethodsOf of the current code: on the tables newPkg leaves behind — the loop (package.go:116-144), then the
+   ordering of every method list by (file name, offset) (package.go:146-157, repair 50ddee1; [U.sort_methods]).
+   [pos] is that key as one number (Determinism's m_pos; the C13 harness numbers the objects of a package in exactly
+   this order, so there pos = o_id). *)
 Definition sorted_methods_of (pos : U.obj -> N) (t : U.tables) (n : U.nref) (ptr : bool) : list U.obj :=
-  Det.sort_by pos N.leb (U.methods_of U.all_fixed t n ptr).
+  U.methods_of U.all_fixed (U.sort_methods pos t) n ptr.
 
 (* ================================================================================================ *)
 (* B. tags: extraction (C12) -> merge -> enabled (C06)                                               *)
